@@ -20,7 +20,11 @@ rows   : the clause "row i describes input sample i": a stream on three tight cl
          isometry oracle (classical-scaling family with target_dimension >= D reproduces every pairwise distance) and a
          projection oracle (row i = returned projecting function of sample i); swept over landmark_ratio 1 / 0.5 / 3/N,
          k = N-1, target_dimension 1 / D / N-1, the three neighbour searches, both solvers, and three forms of the
-         index range (0..N-1; N-1..0; odd columns of a wider matrix with decoy columns).
+         index range (0..N-1; N-1..0; odd columns of a wider matrix with decoy columns); an ORDER oracle on a gently bent
+         arc visited in irregular order (target_dimension 1: |Spearman rho| between the returned coordinate and the arc
+         parameter >= 0.9; 16 methods incl. the local ones that have no cluster oracle).  The whole row-order stream runs a
+         third time in a build of the same driver whose index range is a std::deque filled from both ends (two blocks:
+         a random-access range that is not contiguous in memory).
 streams: besides the boundary / SPE / finiteness / random streams: HUGE finite magnitudes (1e150 .. 1e307, every method,
          all neighbour methods), SPECIAL keyword values (max_iteration 0 = automatic / 1 / 2, shifts at exactly 0,
          library defaults left unset vs set explicitly), data kinds offset (1e6 .. 1e12 x spread), bridge (two clusters
@@ -59,7 +63,10 @@ TRUSTED = [
     "the clause `row i describes input sample i` is PROVED only for the landmark triangulation (tri_rows, tied to the return "
     "statements and the scatter loop of landmarks.hpp read by t_shapes.py); for every method it is TESTED on the dumped "
     "matrix: cluster oracle (11 methods; klle kltsa hlle npe lltsa lpp ra tsne ms and SPE's local strategy excluded with a "
-    "reason each), isometry oracle (classical-scaling family, target_dimension >= D), projection oracle (5 methods)",
+    "reason each), order oracle on an arc (16 methods; ra spe tsne ms excluded with a reason each), isometry oracle "
+    "(classical-scaling family, target_dimension >= D), projection oracle (5 methods); t-SNE has NO row-order oracle "
+    "(cluster, nearest-row, twin-pair and order oracles all fail on /repo HEAD), SPE's local strategy and ManifoldSculpting "
+    "neither",
     "OpenMP facts (throw statements inside parallel regions, orphaned work-sharing constructs) are LEXICAL: a throw "
     "reached through a call made from inside a region, or a region entered through a callback, is seen only by the "
     "huge-magnitude / in-region streams; ASan's malloc_fill_byte=255 is trusted to poison fresh heap memory",
